@@ -336,10 +336,30 @@ THREADED = [
     ("t-l-contains-key-map", "contains_key asks the string -> key map", "lost", [(T, sub("        self.strings.get(key).is_some()\n", "        self.map.get(key).is_some()\n"))]),
 ]
 
+RDR = "src/reader.rs"
+RSV = "src/resolver.rs"
+
+VIEWS = [
+    ("v-resolver-contains-le", "RodeoResolver::contains_key with `<=` (seeded C06-3)", "fail", [(RSV, sub("        key.into_usize() < self.strings.len()\n", "        key.into_usize() <= self.strings.len()\n"))]),
+    ("v-reader-contains-le", "RodeoReader::contains_key with `<=`", "fail", [(RDR, sub("        key.into_usize() < self.strings.len()\n", "        key.into_usize() <= self.strings.len()\n"))]),
+    ("v-reader-resolve-assert-le", "RodeoReader::resolve asserts `<=`", "fail", [(RDR, sub("assert!(key.into_usize() < self.strings.len());", "assert!(key.into_usize() <= self.strings.len());"))]),
+    ("v-resolver-try-resolve-plus1", "RodeoResolver::try_resolve reads index + 1", "fail", [(RSV, sub("                Some(self.strings.get_unchecked(key.into_usize()))", "                Some(self.strings.get_unchecked(key.into_usize() + 1))"))]),
+    ("v-reader-is-empty-ne", "RodeoReader::is_empty: `!=`", "fail", [(RDR, sub("        self.len() == 0\n", "        self.len() != 0\n"))]),
+    ("v-reader-new-swapped", "RodeoReader::new stores the strings parameter nowhere (hasher twice is a type error; here: map <- map, arena param dropped for a default)", "lost", [(RDR, sub("            __arena: arena,\n        }", "            __arena: AnyArena::Arena(Default::default()),\n        }"))]),
+    ("v-into-resolver-other-arena", "Rodeo::into_resolver hands over a fresh arena", "lost", [("src/rodeo.rs", sub("unsafe { RodeoResolver::new(strings, AnyArena::Arena(arena)) }", "unsafe { RodeoResolver::new(strings, AnyArena::Arena(Arena::default())) }"))]),
+    ("v-resolver-new-truncates", "RodeoResolver::new shrinks the vector first", "lost", [(RSV, sub("    pub(crate) unsafe fn new(strings: Vec<&'static str>, arena: AnyArena) -> Self {\n        Self {", "    pub(crate) unsafe fn new(mut strings: Vec<&'static str>, arena: AnyArena) -> Self {\n        strings.shrink_to_fit();\n        Self {"))]),
+    ("v-reader-get-addr-fastpath", "RodeoReader::get compares start addresses first (seeded C06-2 style)", "lost", [(RDR, sub("            string_slice == key_string\n", "            string_slice.as_ptr() == key_string.as_ptr() || string_slice == key_string\n"))]),
+    ("v-h-reader-get-map", "RodeoReader::get with `.map(|(&key, _)| key)` on the lookup directly", "pass", [(RDR, sub("        let entry = self.map.raw_entry().from_hash(hash, |key| {", "        self.map.raw_entry().from_hash(hash, |key| {")), (RDR, sub("        });\n\n        entry.map(|(key, ())| *key)", "        })\n        .map(|(&key, _)| key)"))]),
+    ("v-h-resolver-early", "RodeoResolver::try_resolve with an early `return None`", "pass", [(RSV, sub("            if key.into_usize() < self.strings.len() {\n                Some(self.strings.get_unchecked(key.into_usize()))\n            } else {\n                None\n            }", "            if key.into_usize() >= self.strings.len() {\n                return None;\n            }\n            Some(self.strings.get_unchecked(key.into_usize()))"))]),
+    ("v-h-new-field-order", "RodeoReader::new lists the fields in another order", "pass", [(RDR, sub("            map,\n            hasher,\n            strings,\n            __arena: arena,", "            __arena: arena,\n            strings,\n            hasher,\n            map,"))]),
+    ("v-h-into-reader-helper", "Rodeo::into_reader through a private helper", "pass", [("src/rodeo.rs", sub("        unsafe { RodeoReader::new(map, hasher, strings, AnyArena::Arena(arena)) }\n    }", "        Self::freeze(map, hasher, strings, arena)\n    }\n\n    fn freeze(map: StringMap<K>, hasher: S, strings: Vec<&'static str>, arena: Arena) -> RodeoReader<K, S> {\n        unsafe { RodeoReader::new(map, hasher, strings, AnyArena::Arena(arena)) }\n    }"))]),
+]
+
 SUITES = {
     "keys": {"files": [K], "runner": "run_keys.sh", "mutations": KEYS},
     "arena": {"files": [S, BK], "runner": "run_arena.sh", "mutations": ARENA},
     "lockfree": {"files": [L, AB], "runner": "run_lockfree.sh", "mutations": LOCKFREE},
     "rodeo": {"files": [R], "runner": "run_rodeo.sh", "mutations": RODEO},
     "threaded": {"files": [T], "runner": "run_threaded.sh", "mutations": THREADED},
+    "views": {"files": [RDR, RSV, R], "runner": "run_views.sh", "mutations": VIEWS},
 }
